@@ -28,8 +28,17 @@ ANCHORS = CORNERS + [(2, 2), (26, 10), (27, 100), (703, 65536), (MAX_COL - 1, MA
 # sheet names Excel accepts (1..31 characters, none of \ / ? * [ ] :, no leading or
 # trailing apostrophe)
 SHEETS_PLAIN = ['Sheet1', 'S', 'data', 'A1', 'R1C1', 'RC', 'TRUE', 'XFD1048576', '2024', '1', 'a.b',
-                'x-y', 'it\'s', 'a\'\'b', '#REF', '#N', 'Übersicht', '数据', 'π_1', 'a$b', 'a,b',
-                'Tab(1)', 'A1B2', 'r[1]c[1]', 'x' * 31]
+                'x-y', 'it\'s', 'a\'\'b', '#REF', '#N', 'Übersicht', '数据', 'a$b', 'a,b',
+                'Tab(1)', 'A1B2', 'r[1]c[1]', 'x' * 31,
+                # letters, digits, '_' and '.' only: printed bare by quote_sheet (repair 4860474) ...
+                'Sheet_1.b', '_', '.', 'µ_1', 'x²', '½', 'ª.º', 'Ÿ', 'ÀÖØöøÿ', '数据_1',
+                # ... any other character: quoted, although there is no space
+                'a+b', 'a&b', 'p#q', 'a=b', 'a<b>', 'a@b', '50%', 'a;b', '{x}', 'a~b', 'a^b', '"q"', 'a|b', 'a`b',
+                'a×b', 'a÷b', 'a\xa0b', '£5', '«q»', 'a¿', '数据-1', '🙂', 'x🙂', 'a$', '$', '$A$1', "o'clock-5"]
+# str.isalnum() of these characters is not classified by the model (quote_sheet answers Unmodelled and the
+# comparison of quote_sheet / the printed forms is skipped, counted under 'unmodelled'), unless another character
+# of the name already forces the quotes ('π 1', 'π-1'); the oracle, which needs no model, keeps them
+SHEETS_UNDECIDED = ['π_1', 'Ωmega', 'жук', 'ｆｕｌｌ', 'π 1', 'π-1']
 SHEETS_SPACE = ['Sheet 1', 'My Data', ' lead', 'trail ', 'it\'s here', 'a \' b', 'a \'\' b', 'A1 B2',
                 'R1C1 x', 'TRUE FALSE', '数据 表', '2024 Q1', 'x \'', 'a  b']
 SHEETS_BANG = ['a!b', 'Hello!', '!x', 'wow !', 'a!b c', '!', 'it\'s!']
@@ -272,6 +281,8 @@ def run(ctx):
         "column numbers/letters at the Z/AA, ZZ/AAA, XFD, ZZZ boundaries and PRNG-sampled; cells at the 4 "
         "sheet corners, boundary columns x boundary rows and sampled; ranges from exhaustive rectangles on a "
         "4x4 grid and sampled large ones; sheet names from a legal-in-Excel list (spaces, apostrophes, digits, "
+        "operators and punctuation that need quotes since 4860474, Latin-1 letters/superscripts/fractions, CJK, emoji, "
+        "'$'; Greek/Cyrillic/full-width names are outside the model's isalnum classification: skipped, counted), "
         "names like A1/R1C1/TRUE, unicode, '!') plus illegal quoted-looking names for the correspondence; every "
         "printed form re-parsed; handcrafted malformed/odd address texts; all pairs and sampled triples of grid "
         "rectangles (with sheet mixes) under & and **; relative R1C1 offsets -2..2 around 9 anchors and sampled "
@@ -301,7 +312,7 @@ def run(ctx):
             R.add('inc_row', (c[1], k), lambda cell=cell, k=k: cell.inc_row(k))
 
     # ---------------------------------------------------------------- sheets
-    sheets = [''] + SHEETS_PLAIN + SHEETS_SPACE + SHEETS_BANG
+    sheets = [''] + SHEETS_PLAIN + SHEETS_SPACE + SHEETS_BANG + SHEETS_UNDECIDED
     for s in sheets + ILLEGAL_IN_EXCEL:
         R.add('quote_sheet', (s,), lambda s=s: AddressCell.quote_sheet(s))
         R.add('quote_sheetname', (s,), lambda s=s: quote_sheetname(s))
@@ -536,7 +547,7 @@ def oracle(ctx, cells, rects, rects_big, triples):
         return {(c.col_idx, c.row) for row in a.resolve_range for c in row}
 
     # ---- 1. print/parse round trip, three forms, every legal sheet name
-    legal = [''] + [s for s in SHEETS_PLAIN + SHEETS_SPACE + SHEETS_BANG if is_excel_legal(s)]
+    legal = [''] + [s for s in SHEETS_PLAIN + SHEETS_SPACE + SHEETS_BANG + SHEETS_UNDECIDED if is_excel_legal(s)]
     some_cells = cells[:: max(1, len(cells) // ctx.n(40, 400))] + CORNERS
     some_rects = [rc for rc in rects[::9] + rects_big[:: max(1, len(rects_big) // ctx.n(25, 250))]
                   if (rc[0], rc[1]) != (rc[2], rc[3])]
@@ -553,6 +564,15 @@ def oracle(ctx, cells, rects, rects_big, triples):
                 if back != ('ok', descr(a)):
                     ctx.violation(case, f"{form} {text!r} does not parse back to the same address",
                                   impl=back, expected=descr(a))
+                # the way the formula compiler reads a range token (RangeNode._emit): every '$' stripped first;
+                # a sheet name holding '$' is excluded (it loses it there: C05-cse-sheet-name-dollar)
+                if form != 'address' and '$' not in s and '!' not in s:
+                    ctx.count(('rt-stripped', form, s, rc), kind='oracle:roundtrip-stripped')
+                    back = run_impl(lambda: descr(AddressRange.create(text.replace('$', ''))))
+                    if back != ('ok', descr(a)):
+                        ctx.violation(dict(case, call='roundtrip-stripped'),
+                                      f"{form} {text!r} with its '$' removed does not parse back to the same address",
+                                      impl=back, expected=descr(a))
     # ---- 2. A1, R1C1 and tuple notations agree; relative R1C1 = offset with wrap
     for (c, r) in some_cells:
         a = AddressCell((c, r, c, r), sheet='S')
